@@ -114,6 +114,11 @@ func documentedPipeline(rootText string, fetch fetchFn, act activation, rootStar
 	if err := xml.NewDecoder(strings.NewReader(rootText)).Decode(&project); err != nil {
 		return project, false
 	}
+	return pipelineOn(project, fetch, act, rootStart)
+}
+
+// pipelineOn: the pipeline after the root was decoded.
+func pipelineOn(project maven.Project, fetch fetchFn, act activation, rootStart int) (maven.Project, bool) {
 	if err := project.MergeProfiles(act.jdk, act.os); err != nil {
 		return project, false
 	}
